@@ -442,8 +442,23 @@ theorem printedLabel_congr (o : OutOpts) (t t' : Tree) (h1 : t'.fields.label = t
   have : getLabel o t' = getLabel o t := by
     unfold getLabel
     simp only [h1, h2, h3, h4, h5, h6]
+  have this2 : getLabel o (fillMarks t') = getLabel o (fillMarks t) := by
+    unfold getLabel
+    have g1 : (fillMarks t').fields.label = (fillMarks t).fields.label := by
+      cases t <;> cases t' <;> simpa [fillMarks, setFields, fields] using h1
+    have g2 : (fillMarks t').fields.edge = (fillMarks t).fields.edge := by
+      cases t <;> cases t' <;> simp only [fields] at h2 <;> simp [fillMarks, setFields, fields, h2]
+    have g3 : (fillMarks t').fields.head = (fillMarks t).fields.head := by
+      cases t <;> cases t' <;> simp only [fields] at h3 <;> simp [fillMarks, setFields, fields, h3]
+    have g4 : (fillMarks t').fields.split = (fillMarks t).fields.split := by
+      cases t <;> cases t' <;> simp only [fields] at h4 <;> simp [fillMarks, setFields, fields, h4]
+    have g5 : (fillMarks t').fields.blockNumber = (fillMarks t).fields.blockNumber := by
+      cases t <;> cases t' <;> simpa [fillMarks, setFields, fields] using h5
+    have g6 : (fillMarks t').kids.isEmpty = (fillMarks t).kids.isEmpty := by
+      cases t <;> cases t' <;> simpa [fillMarks, setFields, kids] using h6
+    simp only [g1, g2, g3, g4, g5, g6]
   unfold printedLabel
-  rw [getLabel_setEdge, getLabel_setEdge, this, h1]
+  rw [getLabel_setEdge, getLabel_setEdge, this, this2, h1]
 
 theorem bracketsSub_leaf_nm (o : OutOpts) (hm : NoMarks o) (er : Bool) (n : Nat) (f : Fields) :
     bracketsSub o er (leaf n f) =
